@@ -23,7 +23,7 @@ def run(ctx):
     ctx.fingerprint(FILES)
     ctx.translate(["Z3"])
     ctx.build("C11_z3", deps=["Model/Z3Model.v"])   # the part's own statements, whatever property id runs it
-    n = 80 if quick else 800
+    n = 80 if quick else 500
     specs = [Z.gen_spec(ctx.rng, ["dag", "mixed", "dag", "busy", "odd"][i % 5]) for i in range(n)]
     res = Z.run_specs(ctx, specs, n_models=5 if quick else 8, n_rand=8 if quick else 16)
     ctx.rules.append(Z.RULE + "; non-trivial = at least two offered tasks one of which is a co-decided parent of another, "
